@@ -7,9 +7,7 @@
     * boundary selection of `splitEqual`     (fiber.py:3750-3764)  → `equalBounds`
     * boundary selection of `splitUnEqual`   (fiber.py:3821-3842)  → `unequalBounds`
     * `__truediv__` / `__floordiv__`         (fiber.py:3311-3397)  → `truedivStep` / `floordivStep`
-    * `_splitGeneric` + `updatePayloads`     (fiber.py:3868-3943, 2516-2564) → `splitBelow` (today's
-      code: results are written at the *enumeration index* of the non-empty elements) and
-      `splitAt` (every fiber of the depth is split — what the property asks for).
+    * `_splitGeneric` + `updatePayloads`     (fiber.py:3868-3943, 2516-2564) → `splitAt`
 
   The splitters only look at what iteration of a compressed ("C") rank presents: the non-empty
   elements, in storage order, and at the fiber's active range `[as, ae)`.  They are polymorphic
@@ -259,7 +257,9 @@ def mapM? {α β : Type} (g : α → Option β) : List α → Option (List β)
     | none => none
     | some b => (mapM? g r).map (b :: ·)
 
-/-- every fiber at depth `k` below the root is replaced by its split (`depth_spec`) -/
+/-- `_splitGeneric(splitter, depth=k)`: `updatePayloads` recurses over all stored payloads down to
+    depth `k-1` and there replaces every stored payload — empty ones included, each at its own
+    position (fiber.py:2557-2562 after fix 66a6b4f) — by its `_splitFiber` -/
 def splitAt (cfg : SplitCfg) (dflt : ν) (d : Nat) : (k : Nat) → Tree Int ν (d + 1 + k) →
     Option (Tree Int ν (d + 2 + k))
   | 0, f => splitFiber cfg dflt d f
@@ -267,47 +267,6 @@ def splitAt (cfg : SplitCfg) (dflt : ν) (d : Nat) : (k : Nat) → Tree Int ν (
     (mapM? (fun e => (splitAt cfg dflt d k e.2).map (fun t => (e.1, t)))
       (show List (Int × Tree Int ν (d + 1 + k)) from f)).map
       (fun l => show List (Int × Tree Int ν (d + 2 + k)) from l)
-
-/-- `Fiber.updatePayloads(func, depth=0)` as it is today (fiber.py:2561-2562):
-    `for i, (c, p) in enumerate(self.iterOccupancy()): self.payloads[i] = func(i, c, p)` —
-    the non-empty elements are enumerated, the result is stored at the enumeration index:
-    `writeBack` stores the i-th result at storage position i.
-    `Sum.inl` = position left untouched, `Sum.inr` = position overwritten. -/
-def writeBack {κ α β : Type} : Fib κ α → List β → Fib κ (α ⊕ β)
-  | [], _ => []
-  | e :: r, [] => (e.1, Sum.inl e.2) :: writeBack r []
-  | e :: r, b :: bs => (e.1, Sum.inr b) :: writeBack r bs
-
-def updatePayloadsDrift {κ α β : Type} (isE : α → Bool) (g : α → Option β) (f : Fib κ α) :
-    Option (Fib κ (α ⊕ β)) :=
-  (mapM? g ((f.filter (fun e => !isE e.2)).map (·.2))).map (writeBack f)
-
-/-- result of today's `_splitGeneric(depth = k+1)`: mixed-depth trees are possible -/
-def Mixed (ν : Type) (d : Nat) : Nat → Type
-  | 0 => Fib Int (Tree Int ν (d + 1) ⊕ Tree Int ν (d + 2))
-  | k + 1 => Fib Int (Mixed ν d k)
-
-/-- today's `_splitGeneric(splitter, depth = k+1)`: `updatePayloads` recurses over *all* stored
-    payloads down to depth `k`, and applies the drifting update there -/
-def splitBelow (cfg : SplitCfg) (dflt : ν) (d : Nat) : (k : Nat) → Tree Int ν (d + 1 + (k + 1)) →
-    Option (Mixed ν d k)
-  | 0, f => updatePayloadsDrift (isEmpty dflt (d + 1)) (splitFiber cfg dflt d)
-              (show List (Int × Tree Int ν (d + 1)) from f)
-  | k + 1, f =>
-    mapM? (fun e => (splitBelow cfg dflt d k e.2).map (fun t => (e.1, t)))
-      (show List (Int × Tree Int ν (d + 1 + (k + 1))) from f)
-
-/-- a uniformly split tree seen as a `Mixed` one -/
-def Mixed.ofTree (d : Nat) : (k : Nat) → Tree Int ν (d + 2 + (k + 1)) → Mixed ν d k
-  | 0, f => (show List (Int × Tree Int ν (d + 2)) from f).map (fun e => (e.1, Sum.inr e.2))
-  | k + 1, f => (show List (Int × Tree Int ν (d + 2 + (k + 1))) from f).map
-      (fun e => (e.1, Mixed.ofTree d k e.2))
-
-/-- the class on which today's descent is right: no stored element of the fibers just above the
-    split depth is empty -/
-def NoEmptyAbove (dflt : ν) (d : Nat) : (k : Nat) → Tree Int ν (d + 1 + (k + 1)) → Prop
-  | 0, f => ∀ e ∈ (show List (Int × Tree Int ν (d + 1)) from f), isEmpty dflt (d + 1) e.2 = false
-  | k + 1, f => ∀ e ∈ (show List (Int × Tree Int ν (d + 1 + (k + 1))) from f), NoEmptyAbove dflt d k e.2
 
 end
 
